@@ -279,7 +279,7 @@ def run(ctx):
         elif judge is None or not proved:
             ctx.violation(dict(kind="proof", property="C17", detail=getattr(ctx, "proof_failure", (jlog or "")[-2000:])), no_input=True)
 
-    ctx.level = "other"
+    ctx.level = "proof" if proved else "other"
     ctx.cov.update({
         "evaluations": len(cases) + len(mtexts) + len(corpus) + nk,
         "distinct_nontrivial": len(nontrivial),
@@ -301,8 +301,7 @@ def run(ctx):
         "explanation": EXPLANATION,
     })
     ctx.assumptions = ["serde/lsp-types JSON mapping trusted",
-                       "fold_pre (hypothesis of C17_wellformed) is validated on the documents the model's pipeline produces, not proved "
-                       "for new_doc in general (it needs the parser's range invariants)",
+                       "documents as built from a text (AnalyzedSource::new); documents reached by incremental updates: C01",
                        "C17_valid speaks about the model; the model is tied to the code by correspondence on this run's documents"]
     if ctx.thorough() and proved:
         if not common.coqchk(ctx):
@@ -319,9 +318,9 @@ EXPLANATION = (
     "procedure declarations' absolute token ranges lie inside the token vector, are ordered and disjoint, and each contains a "
     "non-comment token) the handler does not panic and its ranges are well-formed: start <= end < number of lines (LSP line model "
     "of Spec/LspText.v), end_i <= start_{i+1} (C17_wellformed, C17_wellformed_new_doc); one range per procedure declaration of the "
-    "tree in tree order with the stated extents (C17_count, C17_extents). NOT proved: that the parser's tree satisfies the tree "
-    "half of fold_pre for EVERY text (malformed ones included) - the judge evaluates fold_pre on every document of the run and it "
-    "must hold. The tie between model and code is the correspondence (model = server on every document of the run, kernel "
+    "tree in tree order with the stated extents (C17_count, C17_extents). (3) fold_pre holds for the document of EVERY text, "
+    "malformed ones included (C17_fold_pre_total: the tree half for every parser output, Proofs/TotalFold.v), so well-formedness is "
+    "unconditional (C17_wellformed_total); the judge still evaluates fold_pre on every document of the run. The tie between model and code is the correspondence (model = server on every document of the run, kernel "
     "vm_compute sample); the implementation-only oracle recomputes the expected ranges from the generator's own token offsets.")
 
 
